@@ -1,7 +1,7 @@
 (* C18 — proofs about the translated tables (gen/Tables.v) and the translated
    geometry kernels of C11 (FV.C11.gen.Kernels), over R. *)
 From Coq Require Import ZArith Reals List String Lra Permutation Bool.
-From FV.C11 Require Import Model Entry Proofs ProofsGauss.
+From FV.C11 Require Import Model Entry Proofs ProofsVol ProofsGauss.
 From FV.C11.gen Require Import Kernels.
 From FV.C18 Require Import Model.
 From FV.C18.gen Require Import Tables.
